@@ -25,8 +25,8 @@ theorem addr_ne_iff {len n m : Nat} (l : Ref len n) (r : Ref len m) (i : Fin n) 
 /-- reading an object's value component-wise is reading the cells -/
 theorem get_load {len n : Nat} (mem : Mem len) (r : Ref len n) (i : Fin n) : (r.load mem).get i = r.read mem i := by
   induction r with
-  | static base h => simp [Ref.load, Ref.read, Ref.addr, Storage.get]
-  | buffer ptr h => simp [Ref.load, Ref.read, Ref.addr, Storage.get]
+  | static base h => simp [Ref.load, Ref.read, Ref.addr]
+  | buffer ptr h => simp [Ref.load, Ref.read, Ref.addr]
   | rowView impl offset h ih => simp only [Ref.load, Storage.get, ih]; rfl
 
 /-! ## the loop -/
@@ -66,7 +66,25 @@ theorem loop_set {len : Nat} (op : Int → Int → Int) : ∀ (n : Nat) (w rd : 
       rw [Vector.getElem_set_ne _ _ hne]
       exact ihF a fun i => ha i.castSucc
 
+/-- a loop whose step `i` changes at most the cell `w i` leaves every other cell alone -/
+theorem loop_frame {len : Nat} : ∀ (n : Nat) (w : Fin n → Fin len) (body : Fin n → Mem len → Mem len),
+    (∀ i m (a : Fin len), w i ≠ a → (body i m)[a] = m[a]) → ∀ (mem : Mem len) (a : Fin len), (∀ i, w i ≠ a) → (loop n body mem)[a] = mem[a]
+  | 0, _, _, _, mem, _, _ => by simp [loop]
+  | n + 1, w, body, hb, mem, a, ha => by
+    rw [loop_succ, hb _ _ _ (ha (Fin.last n))]
+    exact loop_frame n (fun i => w i.castSucc) (fun i => body i.castSucc) (fun i m a h => hb i.castSucc m a h) mem a fun i => ha i.castSucc
+
+theorem set_frame {len : Nat} (m : Mem len) (l a : Fin len) (x : Int) (h : l ≠ a) : (m.set l x)[a] = m[a] := by
+  simp only [Fin.getElem_fin]
+  exact Vector.getElem_set_ne _ _ fun e => h (Fin.ext e)
+
 /-! ## `member_operator` -/
+
+/-- the frame of `member_operator` needs no assumption on the operands -/
+theorem memberOperator_frame {len n : Nat} (op : Int → Int → Int) (f : Fin len → Fin len → Mem len → Mem len)
+    (hf : ∀ l r m, f l r m = m.set l (op m[l] m[r])) (left right : Ref len n) (mem : Mem len) (a : Fin len) (ha : left.Outside a) :
+    (memberOperator f left right mem)[a] = mem[a] :=
+  loop_frame n left.addr _ (fun i m a h => by rw [hf]; exact set_frame _ _ _ _ h) mem a ha
 
 theorem memberOperator_elem {len n : Nat} (op : Int → Int → Int) (f : Fin len → Fin len → Mem len → Mem len)
     (hf : ∀ l r m, f l r m = m.set l (op m[l] m[r])) (left right : Ref len n) (mem : Mem len) (h : NoClobber left right) :
@@ -129,6 +147,10 @@ theorem loop_write_const {len : Nat} : ∀ (n : Nat) (w : Fin n → Fin len) (va
       exact ihF a fun i => ha i.castSucc
 
 /-! ## rows of a matrix in memory -/
+
+theorem load_atRC {len r c : Nat} (m : MatRef len r c) (mem : Mem len) (i : Fin r) (j : Fin c) :
+    (m.load mem).atRC i j = m.s.read mem ⟨i.val * c + j.val, index_lt i j⟩ := by
+  rw [atRC_eq_entry]; simp [Mat.entry, MatRef.load, get_load]
 
 theorem base_atR {len r c : Nat} (m : MatRef len r c) (i : Fin r) : (m.atR i).base = m.s.base + i.val * c := rfl
 
